@@ -27,6 +27,8 @@ func Main(args []string) int {
 		return cmdCheck(args[1:])
 	case "expect":
 		return cmdExpect(args[1:])
+	case "selftest":
+		return cmdSelftest(args[1:])
 	}
 	fmt.Fprintln(os.Stderr, "unknown command", args[0])
 	return 2
@@ -134,6 +136,9 @@ func cmdVerify(args []string) int {
 					rc = 1
 				}
 				fmt.Printf("  %s %-7s %-12s %5.2fs  %s  [%s]\n", mark, r.Status, r.Solver, r.Seconds, o.Name, o.Pos)
+				if !ok && r.Relaxed {
+					fmt.Println("       candidate counterexample found without the quantified loop frames")
+				}
 				if !ok && r.Status == "error" {
 					fmt.Println("      ", firstLines(r.Raw, 3))
 				}
